@@ -37,6 +37,7 @@ package step_invariant
 // Next (C06, C07, C18): with a cached vector every step of the outer grid gets a copy of that same
 // vector: steps currentStep, currentStep+step, ..., at most stepsBatch of them, none beyond maxt.
 //@ func (*stepInvariantOperator).Next
+//@   refines model.VectorOperator.Next
 //@   requires ctx != nil && u != nil && u.next != nil && u.vectorPool != nil && u.step >= 1 && u.stepsBatch >= 1
 //@   requires len(u.cachedVector.SampleIDs) == len(u.cachedVector.Samples) && allocated(u.cachedVector.Samples) && allocated(u.cachedVector.SampleIDs)
 //@   panics may
@@ -54,7 +55,10 @@ package step_invariant
 //@       u.currentStep == old(u.currentStep) + i*u.step && u.step == old(u.step) && u.maxt == old(u.maxt) && u.stepsBatch == old(u.stepsBatch) && u.step >= 1 &&
 //@       len(u.cachedVector.SampleIDs) == len(u.cachedVector.Samples) && (i == 0 ==> u.currentStep <= u.maxt)
 //@   loop 0 invariant steps: forall k in 0..i :: result[k].T == old(u.currentStep) + k*u.step && result[k].T <= u.maxt
-//@   loop 0 invariant buffers: allocated(u.cachedVector.Samples) && allocated(u.cachedVector.SampleIDs) && (forall k in 0..i :: allocated(result[k].Samples) && allocated(result[k].SampleIDs))
+//@   loop 0 invariant buffers: allocated(u.cachedVector.Samples) && allocated(u.cachedVector.SampleIDs) &&
+//@       (forall k in 0..i :: allocated(result[k].Samples) && allocated(result[k].SampleIDs) && fresh(result[k].Samples) && fresh(result[k].SampleIDs))
+//@   loop 0 invariant[C18] every-step-vector-owns-its-buffers: forall a in 0..i :: forall b in a+1..i ::
+//@       (ref(result[a].SampleIDs) != ref(result[b].SampleIDs) || ref(result[a].SampleIDs) == 0) && (ref(result[a].Samples) != ref(result[b].Samples) || ref(result[a].Samples) == 0)
 //@   loop 0 invariant copies: forall k in 0..i :: len(result[k].Samples) == len(u.cachedVector.Samples) && len(result[k].SampleIDs) == len(u.cachedVector.SampleIDs) &&
 //@       (forall j in 0..len(u.cachedVector.Samples) :: result[k].Samples[j] == u.cachedVector.Samples[j]) &&
 //@       (forall j in 0..len(u.cachedVector.SampleIDs) :: result[k].SampleIDs[j] == u.cachedVector.SampleIDs[j])
